@@ -79,7 +79,7 @@ def stage_checks(inp, out, boundaries, remove_inside, keep_contour):
     return ok
 
 
-def body(v_real, assume, prop, nogo, rng):
+def body(v_real, assume, prop, nogo, rng, prior=None):
     import ghedesigner.domains as D
     import ghedesigner.feature_recognition as FR
     lo, hi_min, hi_max = rng
@@ -90,6 +90,13 @@ def body(v_real, assume, prop, nogo, rng):
     xs = [p[0] for pl in prop for p in pl]
     ys = [p[1] for pl in prop for p in pl]
     assume((bmx * 2 <= max(xs)) & (bmy * 2 <= max(ys)))
+    if prior is not None:
+        # history: another design with the same extent (hence float-identical grid points) but other polygons was built in this
+        # process first - the result below may depend on the polygons handed to *this* call only
+        try:
+            D.polygonal_land_constraint(bmin, bmx, bmy, prior['prop'], prior['nogo'])
+        except ValueError:
+            pass
     calls = []
     real_rc = FR.remove_cutout
 
@@ -140,18 +147,18 @@ def body(v_real, assume, prop, nogo, rng):
     return cs
 
 
-def make_fn(prop, nogo, rng, twin=False):
+def make_fn(prop, nogo, rng, twin=False, prior=None):
     def fn(e):
-        cs = body(lambda n, a, b: e.real(n, a, b), e.assume, prop, nogo, rng)
+        cs = body(lambda n, a, b: e.real(n, a, b), e.assume, prop, nogo, rng, prior)
         return False if twin else conj(cs)
     return fn
 
 
-def make_replay(prop, nogo, rng):
+def make_replay(prop, nogo, rng, prior=None):
     def replay(model, notes):
         restore_shadows()
         try:
-            cs = body(lambda n, a, b: float(model[n]), lambda c: None, prop, nogo, rng)
+            cs = body(lambda n, a, b: float(model[n]), lambda c: None, prop, nogo, rng, prior)
         except Exception as ex:  # noqa: BLE001
             return True, dict(exception='%s: %s' % (type(ex).__name__, ex))
         finally:
@@ -262,6 +269,15 @@ def units(tier, seed):
         us.append(Unit('pipeline_' + nm, make_fn(c['prop'], c['nogo'], rng), make_replay(c['prop'], c['nogo'], rng), setup, F,
                        'configuration %s (%d outline(s), %d no-go zone(s)) concrete; b_min in [%g,%g], b_max_x, b_max_y in [b_min,%g], all reals'
                        % (nm, len(c['prop']), len(c['nogo']), rng[0], rng[1], rng[2]), AS, max_seconds=1500, timeout_ms=60000))
+    PRIORS = {'rect_nogo': dict(prop=[[(0.0, 0.0), (48.0, 0.0), (48.0, 32.0), (0.0, 32.0)]], nogo=[[(2.0, 2.0), (14.0, 2.0), (14.0, 30.0), (2.0, 30.0)]]),
+              'L_shape': dict(prop=[[(0.0, 0.0), (40.0, 0.0), (40.0, 40.0), (0.0, 40.0)]], nogo=[]),
+              'rect_nogo_cw': dict(prop=[[(0.0, 0.0), (48.0, 0.0), (48.0, 32.0), (0.0, 32.0)]], nogo=[]),       # the earlier design had no no-go zone at all
+              'kite_free': dict(prop=[[(0.0, 0.0), (50.0, 0.0), (50.0, 40.0), (0.0, 40.0)]], nogo=[[(10.0, 10.0), (30.0, 10.0), (30.0, 30.0), (10.0, 30.0)]])}
+    for nm in (list(PRIORS) if tier == 'thorough' else ['rect_nogo', 'L_shape', 'rect_nogo_cw']):
+        c, pr = CONFIGS[nm], PRIORS[nm]
+        us.append(Unit('after_other_design_' + nm, make_fn(c['prop'], c['nogo'], rng, prior=pr), make_replay(c['prop'], c['nogo'], rng, prior=pr), setup, F,
+                       'configuration %s built after another design of the same extent (same grid points) with other polygons in the same process; spacings as above' % nm,
+                       AS, max_seconds=1500, timeout_ms=60000))
     sets = {'L': CONFIGS['L_shape']['prop'], 'two_cw': CONFIGS['two_outlines_cw']['prop'], 'nogo_pair': CONFIGS['U_two_nogo']['nogo'],
             'tri_real': [[(20.5, 12.25), (28.75, 12.0), (27.5, 20.125)]]}
     for nm, polys in sets.items():
